@@ -104,7 +104,8 @@ theorem shapePayload_exact {w : Wire} {r : Bool} {c : Cursor} {pl : List UInt8} 
 theorem shapeCore_some {v : Variant} {f : Format} {bpp : Nat} {w : Wire} {c0 : Cursor} {r : Bool}
     {c' : Option Cursor} {m : List UInt8} (h : shapeCore v f bpp w (some c0) r = some (c', m)) :
     ∃ c, c' = some c ∧ convertFor v f bpp r c0 = some c ∧
-      ((isEmptyCursor c = some true ∧ m = rectHeader 0 0 0 0 (if r then encRichCursor else encXCursor)) ∨
+      (((isEmptyCursor c = some true ∨ shapeFits w r c = false) ∧
+          m = rectHeader 0 0 0 0 (if r then encRichCursor else encXCursor)) ∨
        (isEmptyCursor c = some false ∧ shapeFits w r c = true ∧ ∃ pl, shapePayload w r c = some pl ∧
           m = rectHeader c.xhot c.yhot c.w c.h (if r then encRichCursor else encXCursor) ++ pl)) := by
   unfold shapeCore at h
@@ -113,14 +114,15 @@ theorem shapeCore_some {v : Variant} {f : Format} {bpp : Nat} {w : Wire} {c0 : C
   obtain ⟨e, hemp, h⟩ := Option.bind_eq_some_iff.mp h
   cases e with
   | true =>
-    simp only [if_true, Option.some.injEq, Prod.mk.injEq] at h
-    exact ⟨c, h.1.symm, hconv, Or.inl ⟨hemp, h.2.symm⟩⟩
+    simp only [Bool.true_or, if_true, Option.some.injEq, Prod.mk.injEq] at h
+    exact ⟨c, h.1.symm, hconv, Or.inl ⟨Or.inl hemp, h.2.symm⟩⟩
   | false =>
-    simp only [Bool.false_eq_true, if_false] at h
     cases hfit : shapeFits w r c with
-    | false => simp [hfit] at h
+    | false =>
+      simp only [hfit, Bool.not_false, Bool.or_true, if_true, Option.some.injEq, Prod.mk.injEq] at h
+      exact ⟨c, h.1.symm, hconv, Or.inl ⟨Or.inr hfit, h.2.symm⟩⟩
     | true =>
-      simp only [hfit, Bool.not_true, Bool.false_eq_true, if_false] at h
+      simp only [hfit, Bool.not_true, Bool.or_self, Bool.false_eq_true, if_false] at h
       obtain ⟨pl, hpl, e⟩ := Option.map_eq_some_iff.mp h
       simp only [Prod.mk.injEq] at e
       exact ⟨c, e.1.symm, hconv, Or.inr ⟨hemp, hfit, pl, hpl, e.2.symm⟩⟩
@@ -134,15 +136,32 @@ theorem shapeCore_none (v : Variant) (f : Format) (bpp : Nat) (w : Wire) (r : Bo
 regenerated `UPDATE_BUF_SIZE` and header sizes. -/
 theorem shapeFits_of_le {w : Wire} {r : Bool} {c : Cursor} (hw : c.w ≤ 64) (hh : c.h ≤ 64) (hb : w.bpp ≤ 4) :
     shapeFits w r c = true := by
-  unfold shapeFits
+  unfold shapeFits shapeBytes
   have h1 : rowBytes c.w ≤ 8 := by unfold rowBytes; omega
   have h2 : rowBytes c.w * c.h ≤ 8 * 64 := Nat.mul_le_mul h1 hh
   have h3 : c.w * c.h ≤ 64 * 64 := Nat.mul_le_mul hw hh
   have h4 : c.w * c.h * w.bpp ≤ 64 * 64 * 4 := Nat.mul_le_mul h3 hb
-  simp only [UPDATE_BUF_SIZE, sz_rfbFramebufferUpdateMsg,
-    sz_rfbFramebufferUpdateRectHeader, sz_rfbXCursorColors]
+  simp only [UPDATE_BUF_SIZE, sz_rfbFramebufferUpdateRectHeader, sz_rfbXCursorColors]
   apply decide_eq_true
   cases r <;> simp only [Bool.false_eq_true, if_true, if_false] <;> omega
+
+/-- ... and is assembled without a preliminary flush -/
+theorem shapeNoFlush_of_le {w : Wire} {r : Bool} {c : Cursor} (hw : c.w ≤ 64) (hh : c.h ≤ 64) (hb : w.bpp ≤ 4) :
+    shapeFlushesFirst w r c = false := by
+  unfold shapeFlushesFirst shapeBytes
+  have h1 : rowBytes c.w ≤ 8 := by unfold rowBytes; omega
+  have h2 : rowBytes c.w * c.h ≤ 8 * 64 := Nat.mul_le_mul h1 hh
+  have h3 : c.w * c.h ≤ 64 * 64 := Nat.mul_le_mul hw hh
+  have h4 : c.w * c.h * w.bpp ≤ 64 * 64 * 4 := Nat.mul_le_mul h3 hb
+  simp only [UPDATE_BUF_SIZE, sz_rfbFramebufferUpdateMsg, sz_rfbFramebufferUpdateRectHeader, sz_rfbXCursorColors]
+  apply decide_eq_false
+  cases r <;> simp only [Bool.false_eq_true, if_true, if_false] <;> omega
+
+/-- the pseudo-rectangles emitted after the cursor shape find an (almost) empty buffer: their own
+flush tests (`ublen + sz_rfbFramebufferUpdateRectHeader > UPDATE_BUF_SIZE` in rfbSendCursorPos and in
+the empty-cursor branch) cannot fire, because `ublen ≤ sz_rfbFramebufferUpdateMsg` there -/
+theorem header_always_fits :
+    sz_rfbFramebufferUpdateMsg + sz_rfbFramebufferUpdateRectHeader ≤ UPDATE_BUF_SIZE := by decide
 
 end VncModel.Cursor
 
@@ -177,7 +196,7 @@ theorem makeXFromRich_wf {f : Format} {bpp : Nat} {c c' : Cursor} (hc : c.WF)
           exact forM?_ind (fun _ (x : Array UInt8) => x.size = rowBytes c.w * c.h) ha
             (by
               intro i _ x y hx hy
-              simp only [Option.bind_eq_bind] at hy
+              unfold xFromRichStep at hy
               obtain ⟨p, _, hy⟩ := Option.bind_eq_some_iff.mp hy
               rw [ite_orByte_size hy, hx]) hb) hsrc
       exact this
